@@ -24,8 +24,8 @@ RULE = ('EXACT stream (model at the exact instance, small-integer / dyadic data,
         'both signs, +-0, NaN, +-inf. hotspots: rasters with +-1000 clusters, 0/1 kernels, constant rasters, negation. custom_kernel: '
         'all shapes 1..7 (11) squared plus non-ndarray input. '
         'FLOAT stream (the SAME model definitions at the float instance, compared BIT-FOR-BIT): random non-integer rasters 1x1..8x8 of '
-        'six kinds (N(0,100); magnitudes 1e-20..1e20; 1e25..1e38.4 = float32 overflow; 1e-46..1e-30 = float32 subnormals/underflow; '
-        '1000 +- 1e-3 = cancellation), 12% NaN, 2% +-inf, float64 and float32 input: focal.apply for the 7 built-in statistics x 12 kernel '
+        'seven kinds (N(0,100); magnitudes 1e-20..1e20; 1e25..1e38.4 = float32 overflow; 1e-46..1e-30 = float32 subnormals/underflow; '
+        '1000 +- 1e-3 = cancellation; +-2^30/2^60/2^90 cells among ordinary values with exact weights, so that the summation ORDER decides the float32 result), 12% NaN, 2% +-inf, float64 and float32 input: focal.apply for the 7 built-in statistics x 12 kernel '
         'shapes, focal_stats, focal.mean passes 0..3 with excludes taken from the data, convolution_2d with random real weights '
         '(1e-3..1e3), _calc_hotspots_numpy on float32 z-scores, the full hotspots pipeline, and np.nanmean/np.nanstd of the float32 '
         'raster against the model of NumPy\'s pairwise summation. A case is non-trivial when the raster has a non-NaN cell (hotspots: is '
@@ -60,7 +60,9 @@ PARTIAL = [
     'the float instance is tied to the code by bit-exact correspondence, not by theorems about rounding: the structural theorems '
     '(window contents, focal_stats layers, mean block / passes / pass-through, convolution window and border, hotspot value set) hold '
     'for EVERY arithmetic instance incl. the float one; the arithmetic-content theorems (min/max bounds, sum/count, NaN-iff of the '
-    'convolution, threshold ladder, negation symmetry) are proved for the exact instance only',
+    'convolution, threshold ladder, negation symmetry) are proved for the exact instance only; NaN propagation of the convolution is '
+    'proved for every NaN-absorbing instance (C09_conv_nan_propagates), but `nan_absorbing FloatArith` itself is not discharged (it '
+    'needs the FloatAxioms of PrimFloat)',
     'hotspots(-X) = -hotspots(X): proved at the exact instance for sum/count global reductions (C09_hotspots_negate) and for any '
     'reductions that are odd/even under negation (C09_hotspots_negate_any_reduction); not proved for the modelled NumPy pairwise '
     'order (there it is the exact metamorphic test on the implementation) nor at the float instance (IEEE negation symmetry not formalised)',
@@ -78,7 +80,7 @@ LEVEL_TEXT = ('The kernels are written ONCE over an arithmetic record (coq/C09/A
               'over the full window rounded once, NaN on the border; hotspot values lie in {0,+-90,+-95,+-99}. Proved at the exact instance: '
               'nanmean/nanvar = sum/count formulas, nanmin/nanmax bounds, convolution NaN iff a NaN under the window, thresholds '
               '1.65/1.96/2.58 (constants regenerated from the source), oddness in z and hotspots(-X) = -hotspots(X) for the whole pipeline; '
-              'custom_kernel accepts exactly odd x odd ndarrays. 21 theorems, all closed under the global context (no axioms). '
+              'custom_kernel accepts exactly odd x odd ndarrays. 23 theorems, all closed under the global context (no axioms). '
               'Correspondence: exact stream + Fraction oracle (all statistics, five user reducers, passes, excludes, weighted kernels, '
               'Dask chunks) and float stream with no tolerance (NaN/inf/overflow/subnormal data, incl. NumPy\'s pairwise float32 nanmean/nanstd).')
 LEVEL_NOTE = ('Trusted: Coq kernel, extraction (ExtrOCamlFloats: PrimFloat = hardware doubles), the OCaml driver, the hand-written model of '
@@ -1078,17 +1080,24 @@ def rnd_float(rng, kind, nanp=0.12, infp=0.02):
         return rng.gauss(0, 1) * 10 ** rng.uniform(-46, -30)
     if kind == 'near':                      # nearly equal values: cancellation in var / z-scores
         return 1000.0 + rng.gauss(0, 1e-3)
+    if isinstance(kind, tuple):             # ('cancel', e): +-2^e among ordinary values — the summation ORDER shows in the result
+        if rng.random() < 0.4:
+            return rng.choice([-1.0, 1.0]) * 2.0 ** kind[1]
+        return rng.gauss(0, 100)
     return rng.gauss(0, 100)
 
 
-FKINDS = ['norm', 'norm', 'wide', 'big', 'tiny', 'near']
+FKINDS = ['norm', 'norm', 'wide', 'big', 'tiny', 'near', 'cancel', 'cancel']
 
 
 def gen_fraster(rng, rows=None, cols=None, kind=None, nanp=0.12, infp=0.02, dtype=None):
     rows = rows or rng.randint(1, 8)
     cols = cols or rng.randint(1, 8)
     kind = kind or rng.choice(FKINDS)
-    a = np.array([[rnd_float(rng, kind, nanp, infp) for _ in range(cols)] for _ in range(rows)], dtype='float64')
+    gk = ('cancel', rng.choice([30, 60, 90])) if kind == 'cancel' else kind
+    if kind == 'cancel':
+        nanp, infp = min(nanp, 0.05), 0.0
+    a = np.array([[rnd_float(rng, gk, nanp, infp) for _ in range(cols)] for _ in range(rows)], dtype='float64')
     dtype = dtype or 'float64'
     with np.errstate(all='ignore'):
         a = a.astype(dtype)
@@ -1245,6 +1254,10 @@ def run_float_stream(ctx):
                                      nanp=rng.choice([0.0, 0.03, 0.1]), infp=rng.choice([0.0, 0.02]),
                                      dtype='float32' if i % 5 == 4 else 'float64')
         k = np.array([[rng.gauss(0, 1) * 10 ** rng.uniform(-3, 3) for _ in range(shape[1])] for _ in range(shape[0])], dtype='float64')
+        if i % 3 == 0:
+            # exact weights on a raster with +-2^e cells: large terms cancel, the accumulation order decides the float32 result
+            a, dtype, kind = gen_fraster(rng, rows=rng.randint(shape[0], 8), cols=rng.randint(shape[1], 8), kind='cancel', nanp=0.0)
+            k = np.array([[rng.choice([1.0, 1.0, -1.0, 0.5, 2.0, 0.0]) for _ in range(shape[1])] for _ in range(shape[0])], dtype='float64')
         frun_conv(ctx, fpend, a, dtype, kind, k)
     for z in z_arrays()[1:]:
         frun_hot(ctx, fpend, z)
